@@ -110,6 +110,13 @@ def w_gain(ctx, rng, i):
         if G > 0.01:
             ctx.check("edfa.fresh", not np.array_equal(y.noise, y2.noise), "two successive EDFA calls produced the same ASE realisation")
         ctx.check("edfa.signal_deterministic", np.array_equal(y.signal, y2.signal), "EDFA signal part depends on the random state")
+        # a second stage fed with the first stage's output (for a real-valued field this is an object whose signal and noise arrays
+        # have different dtypes — only amplifiers and attribute assignment produce such inputs): edfa.* monitors decide again
+        if i % 3 == 0:
+            D.EDFA(y, float(rng.uniform(0, 20)), NF, BW if rng.integers(2) else None)
+            xm = T.optical_signal(x.signal.copy(), None)
+            xm.noise = (rng.normal(0, 1, x.signal.shape) + 1j * rng.normal(0, 1, x.signal.shape)) * amp * 0.1        # complex noise assigned onto a (possibly real) field
+            D.EDFA(xm, G, NF, None)
     ctx.check("input_unchanged", core.digest(x.signal, x.noise) == d0, "EDFA modified its input")
     if i % 50 == 0:
         with core.quiet():
